@@ -583,7 +583,9 @@ func runScenario(run *hx.Run, op string, style string, sf bool, prim, fbs []*nod
 		rs = "rderr"
 	case errors.Is(res.err, context.Canceled):
 		rs = "ctx"
-	case strings.Contains(res.err.Error(), "bug: no forkjoin results"):
+	case len(prim) == 0:
+		// no primary configured: forkjoin has no input and provide reports its "no results" error. Classified by the
+		// SITUATION, not by the message text (a reworded message must not turn into provide:unexpected_error)
 		rs = "bug"
 	default:
 		rs = "err:unknown:" + res.err.Error()
